@@ -13,6 +13,7 @@ CONSTANTS
   PerturbMode = "pure"
   HashMode = "ordered"
   SFSMode = "callers_list"
+  KernelMode = "stateless"
   MaxTable = 60
 SPECIFICATION Spec
 CHECK_DEADLOCK FALSE
